@@ -81,7 +81,8 @@ def h1_history(draw: Any) -> Dict[str, Any]:
                 ["eof", "reset", "write_fail"])),
                 "during": draw(st.sampled_from(["idle", "busy", "busy_linger"]))})
             break
-    return {"proto": "h1", "T": T, "steps": steps, "sched": draw(st.integers(0, 999))}
+    return {"proto": "h1", "T": T, "steps": steps, "sched": draw(st.integers(0, 999)),
+            "reset_how": draw(st.sampled_from(["reset", "reset", "unreach", "netdown", "timedout", "aborted"]))}
 
 
 @st.composite
@@ -127,7 +128,8 @@ def h2_history(draw: Any) -> Dict[str, Any]:
     return {"proto": "h2", "T": T, "steps": steps, "sched": draw(st.integers(0, 999)),
             # how the connection became HTTP/2: TLS + ALPN, cleartext prior knowledge (the
             # preface arrives on what starts as an HTTP/1 connection) or the h2c upgrade
-            "opening": draw(st.sampled_from(["alpn", "alpn", "prior", "h2c", "h2c_unknown_host"]))}
+            "opening": draw(st.sampled_from(["alpn", "alpn", "prior", "h2c", "h2c_unknown_host"])),
+            "reset_how": draw(st.sampled_from(["reset", "reset", "unreach", "netdown", "timedout", "aborted"]))}
 
 
 @st.composite
@@ -365,7 +367,7 @@ async def run_h1(env: Any, case: Dict[str, Any], app: Any) -> Dict[str, Any]:
             if step["how"] == "eof":
                 conn.eof()
             elif step["how"] == "reset":
-                conn.reset()
+                conn.reset(case.get("reset_how", "reset"))
             else:
                 conn.fail_writes(0)
                 if during == "idle" or case.get("_poisoned"):
@@ -556,7 +558,7 @@ async def run_h2(env: Any, case: Dict[str, Any], app: Any) -> Dict[str, Any]:
             if tm.check(where + " (before the loss)"):
                 break
             lost_at = env.now()
-            conn.eof() if step["how"] == "eof" else conn.reset()
+            conn.eof() if step["how"] == "eof" else conn.reset(case.get("reset_how", "reset"))
             break
     if lost_at is None and not conn.server_gone:
         exp = tm.expected_close()
